@@ -1,6 +1,7 @@
 package main
 
 import (
+	"go/token"
 	"go/types"
 	"strconv"
 	"strings"
@@ -263,6 +264,9 @@ func (p *Program) modCall(ms *modSet, fn *ssa.Function, c *ssa.CallCommon, x *Ex
 		return
 	}
 	if callee != nil {
+		if fc := p.contractFor(callee); fc != nil && !fc.Flags["inline"] && p.touchesChan(callee) {
+			ms.addChan()
+		}
 		if fc := p.contractFor(callee); fc != nil && !fc.Flags["inline"] {
 			p.modContract(ms, fc, callee, callee.Signature, c)
 			return
@@ -472,4 +476,64 @@ func (p *Program) staticLoc(ms *modSet, env map[string]types.Type, loc string, f
 		}
 	}
 	return false
+}
+
+// touchesChan reports whether executing fn (its body, its closures and its statically known repository callees) can
+// change the state of a channel: a send, a receive, a close or a select. Channel effects cannot be declared in an
+// assigns clause, so callers of a function under contract forget the channel state when this is true.
+func (p *Program) touchesChan(fn *ssa.Function) bool {
+	return p.touchesChanRec(fn, map[*ssa.Function]bool{})
+}
+
+func (p *Program) touchesChanRec(fn *ssa.Function, seen map[*ssa.Function]bool) bool {
+	if fn == nil || seen[fn] || !p.isRepoFn(fn) {
+		return false
+	}
+	seen[fn] = true
+	p.mu.Lock()
+	if v, ok := p.chanTouch[fn]; ok {
+		p.mu.Unlock()
+		return v
+	}
+	p.mu.Unlock()
+	res := false
+	for _, b := range fn.Blocks {
+		for _, ins := range b.Instrs {
+			switch n := ins.(type) {
+			case *ssa.Send, *ssa.Select:
+				res = true
+			case *ssa.UnOp:
+				if n.Op == token.ARROW {
+					res = true
+				}
+			case *ssa.Call:
+				if bi, ok := n.Call.Value.(*ssa.Builtin); ok && bi.Name() == "close" {
+					res = true
+				} else if sc := n.Call.StaticCallee(); sc != nil && p.touchesChanRec(sc, seen) {
+					res = true
+				}
+			case *ssa.Go:
+				if sc := n.Call.StaticCallee(); sc != nil && p.touchesChanRec(sc, seen) {
+					res = true
+				}
+			case *ssa.Defer:
+				if bi, ok := n.Call.Value.(*ssa.Builtin); ok && bi.Name() == "close" {
+					res = true
+				} else if sc := n.Call.StaticCallee(); sc != nil && p.touchesChanRec(sc, seen) {
+					res = true
+				}
+			case *ssa.MakeClosure:
+				if cf, ok := n.Fn.(*ssa.Function); ok && p.touchesChanRec(cf, seen) {
+					res = true
+				}
+			}
+		}
+	}
+	p.mu.Lock()
+	if p.chanTouch == nil {
+		p.chanTouch = map[*ssa.Function]bool{}
+	}
+	p.chanTouch[fn] = res
+	p.mu.Unlock()
+	return res
 }
